@@ -240,7 +240,7 @@ pub struct Case {
   pub subject_has_id: bool,
   pub non_transferable: Option<bool>,
   pub status: StatusSel,
-  /// 0 Strict, 1 SkipUnsupported, 2 SkipAll.
+  /// 0 Strict, 1 SkipUnsupported, 2 SkipAll, 3 the option is left alone (status checking is not relaxed: strict).
   pub status_check: u8,
   /// Set of `#rev` in document A and of `#rev2` in document B.
   pub rev: Vec<u32>,
@@ -253,6 +253,10 @@ pub struct Case {
   /// Where the registered-claim duplicates of credential properties are spelled (see `ClaimSpelling`).
   #[serde(default)]
   pub claim_spelling: ClaimSpelling,
+  /// With `Dates::Explicit`: bit 0 = the earliest-expiry bound is not set in the options, bit 1 = the latest-issuance
+  /// bound is not set (the library then uses the current time, known to the oracle only as "between 2020 and 2080").
+  #[serde(default)]
+  pub unset_bound: u8,
 }
 
 /// `serialize_jwt` moves `expirationDate`, `id` and the subject id out of `vc` into `exp`, `jti` and `sub`. A foreign
@@ -678,17 +682,49 @@ impl Case {
         "accepted-expired-default-bound",
       ),
     };
+    // a bound left unset is the current time: only dates decades away from the present are decided
+    const YEAR_2020: i64 = 1_577_836_800;
+    const YEAR_2080: i64 = 3_471_292_800;
+    let against_now = |date: i64, must_be_before: bool| {
+      if (date < YEAR_2020) == must_be_before && !(YEAR_2020..=YEAR_2080).contains(&date) {
+        Tri::True
+      } else if (YEAR_2020..=YEAR_2080).contains(&date) {
+        Tri::Open
+      } else {
+        Tri::False
+      }
+    };
+    let (issuance_state, expiry_state) = match self.dates {
+      Dates::Explicit { issuance, expiry, .. } => (
+        if self.unset_bound & 2 != 0 {
+          against_now(issuance, true)
+        } else if issuance_ok {
+          Tri::True
+        } else {
+          Tri::False
+        },
+        match expiry {
+          Some(e) if self.unset_bound & 1 != 0 => against_now(e, false),
+          _ if expiry_ok => Tri::True,
+          _ => Tri::False,
+        },
+      ),
+      _ => (
+        if issuance_ok { Tri::True } else { Tri::False },
+        if expiry_ok { Tri::True } else { Tri::False },
+      ),
+    };
     out.push(Cond {
       name: "issuance",
       stage: Stage::Unit,
-      state: if issuance_ok { Tri::True } else { Tri::False },
+      state: issuance_state,
       accepted_sig: issuance_sig.into(),
       admits: &["IssuanceDate"],
     });
     out.push(Cond {
       name: "expiry",
       stage: Stage::Unit,
-      state: if expiry_ok { Tri::True } else { Tri::False },
+      state: expiry_state,
       accepted_sig: expiry_sig.into(),
       admits: &["ExpirationDate"],
     });
@@ -742,7 +778,7 @@ impl Case {
     // "The issuer's bitmap service" is looked up in the supplied document named by the credential issuer.
     let issuer_doc: Option<Which> = supplied.iter().copied().find(|w| w.did() == issuer_id);
     let (status_state, status_sig, status_admits): (Tri, &str, &'static [&'static str]) =
-      match (self.status_check, self.status) {
+      match (if self.status_check == 3 { 0 } else { self.status_check }, self.status) {
         (2, _) | (_, StatusSel::Absent) => (Tri::True, "", &[]),
         (0, StatusSel::Unsupported) => (
           Tri::False,
@@ -949,22 +985,28 @@ pub fn check(case: &Case, obs: &mut Obs) -> CheckResult {
   if let Some(id) = case.method_id_text() {
     verification = verification.method_id(fixture!(DIDUrl::parse(&id), "method id"));
   }
-  let mut options = JwtCredentialValidationOptions::new()
-    .verification_options(verification.clone())
-    .status_check(match case.status_check {
-      0 => StatusCheck::Strict,
-      1 => StatusCheck::SkipUnsupported,
-      _ => StatusCheck::SkipAll,
-    });
+  let mut options = JwtCredentialValidationOptions::new().verification_options(verification.clone());
+  match case.status_check {
+    0 => options = options.status_check(StatusCheck::Strict),
+    1 => options = options.status_check(StatusCheck::SkipUnsupported),
+    2 => options = options.status_check(StatusCheck::SkipAll),
+    _ => obs.label("status-check-option-unset"),
+  }
   if let Dates::Explicit {
     latest_issuance,
     earliest_expiry,
     ..
   } = case.dates
   {
-    options = options
-      .latest_issuance_date(fixture!(Timestamp::from_unix(latest_issuance), "latest issuance bound"))
-      .earliest_expiry_date(fixture!(Timestamp::from_unix(earliest_expiry), "earliest expiry bound"));
+    if case.unset_bound & 2 == 0 {
+      options = options.latest_issuance_date(fixture!(Timestamp::from_unix(latest_issuance), "latest issuance bound"));
+    }
+    if case.unset_bound & 1 == 0 {
+      options = options.earliest_expiry_date(fixture!(Timestamp::from_unix(earliest_expiry), "earliest expiry bound"));
+    }
+    if case.unset_bound & 3 != 0 {
+      obs.label(format!("one-bound-unset:{}", case.unset_bound & 3));
+    }
   }
   if let (Some(h), Some(url)) = (case.holder, case.holder_url()) {
     options = options.subject_holder_relationship(
@@ -1286,7 +1328,7 @@ fn case_strategy() -> impl Strategy<Value = Case> {
     prop::bool::weighted(0.9),
     prop::option::of(any::<bool>()),
     status_strategy(),
-    prop_oneof![3 => Just(0u8), 1 => Just(1u8), 1 => Just(2u8)],
+    prop_oneof![3 => Just(0u8), 1 => Just(1u8), 1 => Just(2u8), 2 => Just(3u8)],
     (
       rev_set(),
       rev_set(),
@@ -1305,6 +1347,7 @@ fn case_strategy() -> impl Strategy<Value = Case> {
       1 => Just(ClaimSpelling::SubjectInVcOnly),
       2 => Just(ClaimSpelling::Redundant),
     ],
+    prop_oneof![9 => Just((0u8, false, false)), 1 => (1u8..4, any::<bool>(), any::<bool>())],
   );
   (selection, content, misc).prop_map(
     |(
@@ -1321,7 +1364,7 @@ fn case_strategy() -> impl Strategy<Value = Case> {
         status_check,
         (rev, rev2, revoke_hint),
       ),
-      (all_errors, typ, header_extra, custom, claim_spelling),
+      (all_errors, typ, header_extra, custom, claim_spelling, (unset_bound, issued_long_ago, expires_far_ahead)),
     )| {
       // sometimes aim the status index at a member of the bitmaps so that "revoked" is not left to chance
       let status = match (status, revoke_hint) {
@@ -1334,6 +1377,24 @@ fn case_strategy() -> impl Strategy<Value = Case> {
           }
         }
         (s, _) => s,
+      };
+      // with an unset bound only dates far from the present are decidable: move them there
+      let (dates, unset_bound) = match dates {
+        Dates::Explicit {
+          latest_issuance,
+          issuance,
+          earliest_expiry,
+          expiry,
+        } => (
+          Dates::Explicit {
+            latest_issuance,
+            issuance: if unset_bound & 2 != 0 { if issued_long_ago { YEAR_2000 } else { YEAR_2090 } } else { issuance },
+            earliest_expiry,
+            expiry: if unset_bound & 1 != 0 { expiry.map(|_| if expires_far_ahead { YEAR_2090 } else { YEAR_2000 }) } else { expiry },
+          },
+          unset_bound,
+        ),
+        d => (d, 0),
       };
       Case {
         family,
@@ -1362,6 +1423,7 @@ fn case_strategy() -> impl Strategy<Value = Case> {
         header_extra,
         custom,
         claim_spelling,
+        unset_bound,
       }
     },
   )
@@ -1408,6 +1470,7 @@ fn base_case(target: M) -> Case {
     header_extra: false,
     custom: Map::new(),
     claim_spelling: ClaimSpelling::Library,
+    unset_bound: 0,
   }
 }
 
@@ -1524,6 +1587,7 @@ const DEVIATIONS: &[Deviation] = &[
   |c| c.status = StatusSel::Absent,
   |c| c.status_check = 1,
   |c| c.status_check = 2,
+  |c| c.status_check = 3,
   |c| c.all_errors = false,
 ];
 
